@@ -2509,6 +2509,27 @@ private:
                                             const Linear_Expression& x,
                                             const Linear_Expression& y);
 
+  /*! \brief
+    Assigns to \p rays the rays of \p gs, each one replaced by the
+    (normalized) ray that is equivalent to it modulo the lines of \p gs
+    and is orthogonal to all of these lines.
+
+    \param gs
+    A generator system in minimal form;
+
+    \param rays
+    The computed rays (homogeneous linear expressions), listed in the
+    same order as they occur in \p gs.
+
+    The rays of a generator system in minimal form are only determined
+    up to the addition of elements of the lineality space: the coordinates
+    of the rays computed by this method, instead, only depend on the
+    polyhedron generated by \p gs (this is the <EM>orthogonal form</EM>
+    used in the specification of the BHRZ03 widening and certificate).
+  */
+  static void orthogonal_form_rays(const Generator_System& gs,
+                                   std::vector<Linear_Expression>& rays);
+
   //@} // Widening- and Extrapolation-Related Functions
 
   //! Adds new space dimensions to the given linear systems.
